@@ -1019,6 +1019,9 @@ class NumStr(ZStr):
     def __init__(self, n):
         self.n = toint(n)
         self.t = z3.IntToStr(self.n)
+        self.parts = None
+        self.free_of = ("@", "-", " ", ".")       # a decimal numeral
+        self.has = ()
 
     def __eq__(self, o):
         if isinstance(o, NumStr):
